@@ -18,6 +18,7 @@ def c01_parts(tier, seed):
         P("U-3", "c01_movegen", "seq", ["--part", "u3", "--wk", 0], require=["in_check", "checking_moves"]),
         P("U-EP", "c01_movegen", "seq", ["--part", "uep", "--sliders", 7], require=["with_legal_ep"]),
         P("U-CASTLE", "c01_movegen", "seq", ["--part", "ucastle", "--blockers", 0 if q else 1], require=["states"]),
+        P("U-KRAID", "c01_movegen", "seq", ["--part", "ukraid"], require=["states"]),
         P("U-PERFT", "c01_movegen", "seq", ["--part", "perft", "--depth", 3 if q else 4], require=["captures"]),
     ]
     if q:
@@ -134,7 +135,8 @@ CHECKS["C20"] = dict(
          "on 1/8 of the systems chosen by a fixed hash of the index, one order otherwise); a system is non-trivial when it has >= 1 constraint and every initial range is non-empty",
     alphabet="1..3 variables; ranges from a boundary list inside [-16,47] incl. empty ranges and the full window; parity none/even/odd; addMinVal/addMaxVal tightenings inside the "
              "window; constraints v_i {<=,>=,==} v_j + c incl. i == j and 3-cycles",
-    oracle="brute force over all assignments of the initial ranges: solve()==true iff a solution exists; any returned assignment satisfies every range, parity and constraint",
+    oracle="brute force over all assignments of the initial ranges: solve()==true iff a solution exists; any returned assignment satisfies every range, parity and constraint; "
+           "every system with constraints is additionally solved with a history: all but the last constraint, solve(), the last constraint, solve() again - the second answer must be that of the whole system",
     bound=dict(quick="n=1: all ranges x parity x 7 tightenings x <=2 self-constraints (c in 9 values); n=2: 12 ranges x parity x 3 tightenings per variable, <=2 constraints over c in 5 values; "
                      "n=3: 6 ranges x 2 parities, <=1 constraint + all 3-cycles with c in [-2,2]",
                thorough="n=2 with 13 ranges (incl. the full window) and c in 9 values; n=3 with <=2 constraints"),
@@ -204,7 +206,8 @@ CHECKS["C18"] = dict(
          "non-trivial = the probe returned a move for at least one RNG outcome",
     alphabet="book sources: built-in book, polyglot files in memory (memfd); faults: truncation to every length, head cuts, every single-byte substitution, all 8! entry orders, "
              "missing file; environment: every outcome of Random::nextInt (scripted through ld --wrap); legalmoves: every legal move of ~950 positions (castling-ready, queen / rook on e1/e8 "
-             "with the king elsewhere, promotions, en passant, all nodes within 1 ply of the 30 seeds) stored alone under the position's key, encoded by the harness from the format description",
+             "with the king elsewhere, promotions, en passant, all nodes within 1 ply of the 30 seeds) stored alone under the position's key; both the move word and the KEY are computed by the harness from the format description (the key is anchored on the published key of the initial "
+             "position and compared with the engine's for every position, incl. all 16 subsets of castling rights)",
     oracle="result is the empty move or legal per the independent oracle; well-formed book: result in the moves stored under key(P), every positive-weight move returned for some r, "
            "zero-weight moves never; built-in book: result in the stored entries and every entry reachable; legalmoves: the probe returns exactly the stored move",
     bound=dict(quick="complete (same as thorough)", thorough="complete"),
@@ -224,6 +227,7 @@ def c19_parts(tier, seed):
         P("from-diamond", T, "seq", ["--part", "diamond", "--alpha", "small" if q else "medium", "--depth", 4 if q else 5], require=["nontrivial"], deadline_frac=0.9),
         P("from-forced-line", T, "seq", ["--part", "forced", "--depth", 4 if q else 5], require=["states"], deadline_frac=0.9),
         P("from-clock-twins", T, "fast", ["--part", "twins", "--depth", 3 if q else 4], require=["states", "nontrivial"], deadline_frac=0.9),
+        P("from-long-path", T, "fast", ["--part", "longpath", "--depth", 2 if q else 3], require=["states"], deadline_frac=0.9),
     ] + ([] if q else [P("from-empty-medium", T, "seq", ["--part", "empty", "--alpha", "medium", "--depth", 6], require=["nontrivial"], deadline_frac=0.9)])
 
 CHECKS["C19"] = dict(
@@ -233,7 +237,8 @@ CHECKS["C19"] = dict(
     alphabet="add position under any node x move alphabet (e3/e4/e6/e5 [+d3/d6, Nf3/Nf6]: transpositions with equal and different path lengths), set search result x scores "
              "{-50,0,30[,mates]} x {no non-book move (IGNORE), non-book best move, book best move}, pending mark toggle, import of 3 small game trees, save + reload; "
              "start states: empty book, a 2/4-ply transposition diamond, a forced-move line (1.e4 f6 2.Qh5+ g6) where IGNORE results are valid, and 'clock twins' (1.e3 e6 2.Nf3 / 1.Nf3 e6 2.e3: "
-             "equal placement, different half-move clock, hence two nodes from which the same move leads to one child)",
+             "equal placement, different half-move clock, hence two nodes from which the same move leads to one child), and a 'long path' (1.e3 e6 2.e4 e5 3.d3 d6, whose position after "
+             "2...e5 is reached two plies earlier by 1.e4 e5: a depth reduction that has to reach grandchildren)",
     oracle="from-scratch reference on the whole graph in every state: links from legal moves, depth = BFS distance, negamax, expansion costs (white/black), path errors, "
            "parent/child symmetry; save+reload reproduces primary data and all derived values of the same history without pending marks",
     bound=dict(quick="depth 6 from the empty book (small alphabet), depth 4 from the diamond and from the forced line, depth 3 from the clock twins", thorough="depth 8 / 5 / 5 plus medium alphabet depth 6, under the deadline"),
@@ -241,7 +246,7 @@ CHECKS["C19"] = dict(
                  "and every state's derived values are checked against the reference before merging",
                  "search results stay in the documented domain (IGNORE only when every legal move is a valid book node)"],
     technique="explicit-state breadth-first search over operation histories of the real book object with canonical-state deduplication and a from-scratch reference model",
-    level_text="All operation histories up to the depth bound over the stated alphabet, from four start states, are executed on the real BookBuild::Book; every reached state is compared with a from-scratch fixed point.",
+    level_text="All operation histories up to the depth bound over the stated alphabet, from five start states, are executed on the real BookBuild::Book; every reached state is compared with a from-scratch fixed point.",
     level_note="Trusted: the reference transcription of the header's equations; books larger than ~8 nodes are not reached.",
 )
 
@@ -331,6 +336,7 @@ def c04_parts(tier, seed):
             P("tb-asan", T, "seq", ["--part", "tb", "--names", "KQvK", "--depths", "1,2,3", "--tt", "512", "--null", "1", "--stride", 16], require=["verified_mate_claims"], deadline_frac=0.9),
             P("tb-backed", T, "fast", ["--part", "tbsearch", "--names", "KQvKN", "--maxmate", 3, "--stride", 999, "--sstride", 9, "--lstride", 3], require=["verified_mate_claims", "verified_mated_claims", "short_loss_roots"], deadline_frac=0.9),
             P("announce", T, "fast", ["--part", "announce", "--games", 300, "--every", 3, "--depths", "6", "--tt", "65536", "--null", "1", "--maxmate", 3], require=["verified_mate_claims", "corpus_roots"], deadline_frac=0.9),
+            P("tb-revisit", T, "fast", ["--part", "tb", "--names", "KRvK", "--depths", "12,8,9,10", "--tt", "65536", "--null", "1", "--stride", 53], require=["verified_mate_claims"], deadline_frac=0.9),
         ]
     return [
         P("tb-net1", T, "fast", ["--part", "tb", "--names", "KQvK,KRvK,KvKQ,KvKR", "--depths", "1,2,3,4,6", "--tt", "512,65536", "--null", "1,0"], require=["verified_mate_claims", "verified_mated_claims", "mate_in_one_roots"], deadline_frac=0.3),
@@ -340,6 +346,7 @@ def c04_parts(tier, seed):
         P("solver", T, "fast", ["--part", "solver", "--perft", 3, "--maxmate", 3, "--depths", "1,2,3,4,5,6,7", "--tt", "512,65536", "--null", "1,0"], require=["mate_in_one_roots", "verified_mate_claims"], deadline_frac=0.3),
         P("tb-asan", T, "seq", ["--part", "tb", "--names", "KQvK,KRvK", "--depths", "1,2,3,4", "--tt", "512", "--null", "1", "--stride", 4], require=["verified_mate_claims"], deadline_frac=0.2),
         P("tb-backed", T, "fast", ["--part", "tbsearch", "--names", "KQvKN,KQvKB,KRvKB,KRvKN,KQvKR,KBNvK,KvKQN", "--maxmate", 3, "--stride", 199, "--sstride", 1, "--lstride", 1], require=["verified_mate_claims", "verified_mated_claims", "short_loss_roots"], deadline_frac=0.5),
+        P("tb-revisit", T, "fast", ["--part", "tb", "--names", "KRvK,KQvK,KvKR", "--depths", "14,8,9,10,11,12,8", "--tt", "65536", "--null", "1", "--stride", 11], require=["verified_mate_claims"], deadline_frac=0.3),
         P("announce", T, "fast", ["--part", "announce", "--games", 1500, "--every", 2, "--depths", "5,6,8", "--tt", "512,65536", "--null", "1,0", "--maxmate", 3], require=["verified_mate_claims", "corpus_roots"], deadline_frac=0.5),
     ]
 
@@ -348,6 +355,7 @@ CHECKS["C04"] = dict(
     rule="states = searches executed ((root, depth, table size, null-move, network) tuples, distinct by construction); transitions = PV lines examined; non-trivial = the search reported at least one mate score",
     alphabet="roots: every legal placement with the white king in the a1-d1-d4 triangle of KQvK, KRvK (and more classes / strides per tier), both sides to move; positions of the seed trees "
              "in which the independent AND/OR solver finds a forced mate; configurations: depth x {512-entry, 64k-entry table} x UseNullMove x synthetic network; tables persist across roots (histories); "
+             "tb-revisit: the same root searched to depth 12 and then again to depths 8, 9, 10 on the same hash table (deep entries survive shallower searches: histories of the table); "
              "announce: every position (side to move owning a pawn and a piece, every 3rd ply from ply 12) of 300 (1500) deterministic LCG games that prefer captures and checks every third move, "
              "searched to depth 6 (5, 6, 8; two table sizes; null move on/off) - roots are NOT pre-selected by the solver, false announcements arise where no short mate exists; "
              "tb-backed: searches without depth limit (16 MB table, on-demand tablebase built and consulted) on 4-men roots that will be announced as mates in <= 3 (every 3rd loss / 9th win root of "
@@ -495,12 +503,12 @@ CHECKS["C08"] = dict(
     rule="states = distinct observable states (the 8 words of the bucket + per thread: finished flag, number of atomic accesses done, hash of every value read) reached over all "
          "interleavings of all thread programs, plus scores x plies (ply-shift) and table sizes (index parts); transitions = atomic steps executed / getIndex or getScore evaluations; "
          "non-trivial = every explored interleaving state (two or three threads on one bucket), mate scores, non-power-of-two sizes, tables with a resident tablebase",
-    alphabet="slots: 2-3 threads x 1-2 operations from {insert(k0), probe(k0), insert(k1), probe(k1), insert(k2), insert(k0 with empty move)} on three keys forced into one bucket of the real "
+    alphabet="slots: 2-3 threads x 1-2 operations from {insert(k0), probe(k0), insert(k1), probe(k1), insert(k2), insert(k0 with empty move), insert(k1 without static evaluation)} on three keys forced into one bucket of the real "
              "TranspositionTable (512 entries); initial bucket {empty, full of other keys, k0 from an older generation}; thread programs up to symmetry, containing >= 1 insert and >= 1 probe; "
              "scheduling points = every atomic load/store (atomic shim), ALL sequentially consistent interleavings, no preemption bound; "
              "weak: writers-only programs of the same shape (2-3 threads x 1-2 inserts from 5 records), for each the set of values every one of the 8 bucket words holds in any reachable state "
              "of any interleaving, then EVERY element of the product of the 8 sets installed in the bucket and probed for the 3 keys (relaxed-memory over-approximation: a relaxed load may "
-             "return any value stored to that location); ply: all scores |s| <= MATE0 x plies 0..200 x 0..200; "
+             "return any value stored to that location); ply: all scores |s| <= MATE0 x plies 0..200 x 0..200, and setBusy on a stored record for every mate score x ply (the record must read back unchanged); "
              "index: every Hash value 1..1024 MB, powers of two to 2^20 MB, each minus the tablebase region, in-tree sizes, every multiple of 4 in [512, 9000 (70000)] x all 2^16 key "
              "prefixes x low-bit patterns; real tables: reSize(Hash) + real updateTB for Hash in a boundary list, then hash traffic",
     oracle="a probe (during or after the interleaving) returns a miss or exactly one record that was passed to insert for that key (move of that call or, for an empty move, of an earlier "
